@@ -7,7 +7,7 @@ PROPS = {"C11": "model_checking"}
 
 PROP_INVS = {
     "C11": ["C11_NextAsFresh", "C11_KafkaErrKeepsOpen", "C11_ErrorReported", "C11_FailedStaysFailed", "C11_NoSpuriousNoProgress",
-            "C11_TransportErrorCloses", "C11_StallIsError"],
+            "C11_TransportErrorCloses", "C11_StallIsError", "C11_WrongIdIsError", "C17_NoPanicNoHang"],
     "C06": ["C06_OwnResponse", "C06_UniqueIds"],
     "C17": ["C17_CutIsError", "C17_NoPanicNoHang", "C11_FailedStaysFailed", "C06_OwnResponse", "C11_TransportErrorCloses"],
 }
@@ -77,6 +77,20 @@ def c11_scripts(tier):
                     {"o": 1, "g": 1, "kind": k1, "arg": a1, "deadlineMs": 40, "fault": {"stall": stall, "stallMs": 200}},
                     {"o": 2, "g": 1, "kind": k2, "arg": a2, "sleepMs": sl},
                     {"o": 3, "g": 1, "kind": "brokers", "arg": 0}]})
+    # part of a fetch response left unread on purpose: the Conn stays usable and the next operation behaves as on a fresh one
+    for fv in (2, 5, 10):
+        for k1 in ("fetchShort", "fetchPartial", "fetchClose2"):
+            for (k2, a2) in op2s:
+                if k2 in ("fetch", "produce"):      # (a produced record would change what the probing fetch must return)
+                    continue
+                out.append({"id": "c11-%s-v%d-%s%d" % (k1, fv, k2, a2), "kind": "c11", "versions": vers(fetch=fv), "report": False, "ops": [
+                    {"o": 1, "g": 1, "kind": k1, "arg": 2}, {"o": 2, "g": 1, "kind": k2, "arg": a2}, {"o": 3, "g": 1, "kind": "fetch", "arg": 5}]})
+    # an answer carrying a foreign correlation id (framing error): this and every later operation fail, none hangs
+    for (k1, a1, field, vs, tag) in op1_variants():
+        for delta in (1, 1000, -1):
+            out.append({"id": "c11-wrongid-%s-d%d" % (tag, delta), "kind": "c11", "versions": vs, "report": False, "ops": [
+                {"o": 1, "g": 1, "kind": k1, "arg": a1, "fault": {"corr": delta}}, {"o": 2, "g": 1, "kind": "offsetAt", "arg": 5},
+                {"o": 3, "g": 1, "kind": "partitions", "arg": 3}]})
     # two broker errors in a row, then a probe
     for (k1, a1, field, vs, tag) in op1_variants():
         if k1 in ("produce", "fetch", "lastOffset"):
@@ -300,6 +314,14 @@ def model_check(ctx, prop, tier):
         r2 = ctx.tlc(ENGINE, "ConnMux", "MC_defect.cfg", workers=8, timeout=300)
         if r2["violated"] != "C11_NeverMisaligned":
             raise Inconclusive("vacuity guard failed: the defective model was not rejected")
+        # second guard (finding F20): io.ErrNoProgress without closing the connection lets a frame with a foreign
+        # correlation id be taken later by the operation whose id it carries
+        with open(os.path.join(d, "MC_defect2.cfg"), "w") as f:
+            f.write("SPECIFICATION Spec\nCONSTANT CloseOnNoProgress <- NoCloseOnNoProgress\nCONSTANTS Ops = {1, 2, 3}\n ConsumeAll = TRUE\n MaxCuts = 0\n MaxTimeouts = 0\n"
+                    "INVARIANTS C11_NoSpuriousNoProgress\nCHECK_DEADLOCK FALSE\n")
+        r3 = ctx.tlc(ENGINE, "ConnMux", "MC_defect2.cfg", workers=8, timeout=300)
+        if r3["violated"] != "C11_NoSpuriousNoProgress":
+            raise Inconclusive("vacuity guard failed: the model without close-on-ErrNoProgress was not rejected")
     return {"states": r["distinct"], "transitions": r["generated"], "mc_depth": r["depth"], "mc_ops": nops}
 
 
